@@ -70,6 +70,9 @@ type OpSpec struct {
 	Tag       string `json:"t,omitempty"`  // for put/putnew/push
 	PreSecret bool   `json:"ps,omitempty"` // record flagged secret before the write
 	PreCrown  bool   `json:"pc,omitempty"` // record flagged crown jewel before the write
+	// putwrap: the written record is a record.Wrapper in this format:
+	// json cbor msgpack yaml raw gencode empty (JSON format, no data)
+	Format string `json:"fmt,omitempty"`
 }
 
 // Cond is the small condition language the reference model can evaluate.
@@ -120,9 +123,13 @@ type HookSpec struct {
 	ReplFreshMeta bool   `json:"repl_fresh_meta,omitempty"` // new, valid metadata (also replaces deleted/expired records in PostGet)
 	ReplSecret    bool   `json:"repl_secret,omitempty"`     // replacement is flagged secret
 	ShareWith     int    `json:"share_with"`
-	RegAt         int    `json:"reg_at"`
-	CancelAt      int    `json:"cancel_at"` // -1 after all workers finished, -2 never
-	DoubleCancel  bool   `json:"double_cancel,omitempty"`
+	// SameObjAs k > 0: this registration hands RegisterHook the *same Hook value* as
+	// hook k-1 (one hook object registered under several queries); phases and
+	// behaviour are then those of that object, the query is this entry's own
+	SameObjAs    int  `json:"same_obj_as,omitempty"`
+	RegAt        int  `json:"reg_at"`
+	CancelAt     int  `json:"cancel_at"` // -1 after all workers finished, -2 never
+	DoubleCancel bool `json:"double_cancel,omitempty"`
 }
 
 // PlanSpec parameterises the fixed templates of the classes pair and shared.
